@@ -281,6 +281,15 @@ func discharged(r *Result) bool {
 	return r.Status == "unsat"
 }
 
+// failed: the obligation is definitely not met. A vacuity canary fails only when the solver proves the
+// point unreachable (unsat); an inconclusive satisfiability query is not an alarm.
+func failed(r *Result) bool {
+	if r.Ob.Canary || r.Ob.Cover {
+		return r.Status == "unsat"
+	}
+	return r.Status != "unsat"
+}
+
 func cmdBaseline(args []string) {
 	p := mustLoad()
 	b := loadBaseline()
@@ -295,6 +304,11 @@ func cmdBaseline(args []string) {
 		n := 0
 		for _, r := range run.results {
 			n++
+			if discharged(r) && r.TimeS > 4.0 && !r.Ob.Canary {
+				// claim only what discharges well inside the quick timeout (slow queries are the unstable ones)
+				fmt.Printf("not in baseline (slow, %.1fs): %s\n", r.TimeS, r.Ob.Name)
+				continue
+			}
 			if discharged(r) {
 				names = append(names, r.Ob.Name)
 			} else {
@@ -372,7 +386,7 @@ func cmdCheck(args []string) {
 	var unclaimed []string
 	for _, r := range run.results {
 		regenerated[r.Ob.Name] = true
-		ok := discharged(r)
+		ok := discharged(r) || !failed(r)
 		rec := obRecord{Name: r.Ob.Name, Kind: r.Ob.Kind, Func: r.Ob.Func, Descr: r.Ob.Descr, Pos: r.Ob.Pos,
 			Status: r.Status, Solver: r.Solver, TimeS: r.TimeS, SMTFile: r.File, Claimed: claimed[r.Ob.Name]}
 		records = append(records, rec)
@@ -383,6 +397,9 @@ func cmdCheck(args []string) {
 			}
 		}
 		if ok {
+			if !discharged(r) {
+				unclaimed = append(unclaimed, r.Ob.Name+" (vacuity guard inconclusive: "+r.Status+")")
+			}
 			continue
 		}
 		if k, isKnown := known[r.Ob.Name]; isKnown {
